@@ -127,7 +127,9 @@ def compare(ref, oth, tr, A, b, viol, tag):
         if (ref["vw"] is None) != (oth["vw"] is None) or ref["solutionType"] != oth["solutionType"]:
             fail("solve", "outcome", 1.0, 0.0,
                  f"({ref['solutionType']}, v={ref['vw']} vs {oth['solutionType']}, v={oth['vw']})")
-            obs["_solve_diverged_at"] = max(ref["vMin"], 1e-3)
+            cands = [max(ref["vMin"], 1e-3), 0.999 * min(ref["vJ"], ref["fastestDeflag"])]
+            cands += [r_["vw"] for r_ in (ref, oth) if r_.get("vw") is not None]
+            obs["_solve_diverged_at"] = cands
         elif ref["vw"] is not None and ref["success"] and oth["success"]:
             d = abs(ref["vw"] - oth["vw"])
             obs["vw"] = d
@@ -178,12 +180,19 @@ def reclassify_solve(viol, nv, o, spec, cfg, mon):
     v = o.pop("_solve_diverged_at", None)
     if v is None or not any(x["mech"].startswith("not-covariant:solve:") for x in viol[nv:]):
         return
-    try:
-        P1, P2, rel, rtol = MT.pressure_start_dependence(spec, cfg, v)
-    except Exception as exc:
-        o["start_dependence_probe_error"] = repr(exc)[:100]
+    best = None
+    for vv in (v if isinstance(v, list) else [v]):
+        try:
+            P1, P2, rel, rtol = MT.pressure_start_dependence(spec, cfg, float(vv))
+        except Exception as exc:
+            o["start_dependence_probe_error"] = repr(exc)[:100]
+            continue
+        mon["start_dependence_probes"] = mon.get("start_dependence_probes", 0) + 1
+        if best is None or rel > best[3]:
+            best = (float(vv), P1, P2, rel, rtol)
+    if best is None:
         return
-    mon["start_dependence_probes"] = mon.get("start_dependence_probes", 0) + 1
+    v, P1, P2, rel, rtol = best
     o["start_dependence"] = {"vw": v, "P1": P1, "P2": P2, "rel": rel}
     if rel > 3 * rtol:
         for x in viol[nv:]:
@@ -208,6 +217,9 @@ def run_case(case):
         return {"key": key0, "cls": "reference-failed", "nontrivial": False,
                 "obs": {"error": repr(exc)[:300], "spec": spec}, "viol": [], "mon": mon}
     pot0 = ref.pop("_pot", None)
+    if "raised" in ref:
+        return {"key": key0, "cls": "reference-failed", "nontrivial": False,
+                "obs": {"error": ref["raised"], "spec": spec}, "viol": [], "mon": mon}
     if not ref["p_trace"]:
         return {"key": key0, "cls": "inadmissible(P_trace)", "nontrivial": False,
                 "obs": {"why": ref["p_trace_why"], "spec": spec}, "viol": [], "mon": mon}
@@ -229,6 +241,12 @@ def run_case(case):
             classes.append("partner-raised")
             continue
         pot2 = oth.pop("_pot", None)
+        if "raised" in oth:
+            viol.append({"mech": "not-covariant:pipeline-raises",
+                         "msg": f"{tag}: set-up under {tr} raised {oth['raised']} while the "
+                         f"reference run succeeded", "data": {"transform": tr}})
+            classes.append("partner-raised")
+            continue
         if not oth["p_trace"]:
             viol.append({"mech": "not-covariant:trace-leaves-branch",
                          "msg": f"{tag}: under {tr} {oth['p_trace_why']} although the reference "
